@@ -16,6 +16,30 @@ P = {
   "Lean theorems over a model of ParseTypeRef / TypeRef.String / ParseRef / PkgImportPathAndExpose / rawNamer.processName (parse_print: every well-formed reference of any depth and width parses back to itself with the depth-counter scanner; splitRef_agree; rewrite_shape, rewrite_bound, rewrite_final_names: the namer's rewrite changes only package paths, registers exactly the foreign packages and every node carries the name any later extension of the table gives its package), tied to the code by a differential run against ParseTypeRef, ParseRef, PkgImportPathAndExpose and snippet.ID(string) rendered through a real writer (random trees, grammar enumeration, malformed strings for agreement only), with the tree the string was printed from as ground truth.",
   "Trusted: Lean kernel; references whose head has a package path (a TypeName always has a package) for the naming-system clause; the tracker's names themselves are C03's subject; the correspondence is a sample.",
   "Lean 4 proof (mutual structural induction over the nested reference tree) + correspondence + ground-truth oracle", "6 C15"),
+ "C02": (True,
+  "Lean theorems over an effect-trace model of Execute / pkgExecute / WriteToFile (execute_sum_last: a writeSum effect can only be the last effect of a run without error — so every strict prefix of any trace, i.e. every crash point, leaves gengo.sum untouched; goPkgs_fail: a failing run's trace is the complete traces of the packages before the failing one, what the failing package had done, nothing after and no sum; pkgExecute_gen_error: a generator or deferred-callback error touches no file of the package; writes_syntax_keeps: an unparseable rendering leaves that generator's file unwritten; runGen_err: the error carries generator and package), for any number of packages, generators and any failure index; tied to the code by fault enumeration on real modules: an error, a failing deferred callback, an unparseable rendering and an os.Exit injected at every GenerateType call of generated scenarios, the module tree hashed before and after, compared with the model's trace and judged by a Go re-statement of the property; two structural facts extracted from the source on every run (ParseFile precedes OpenFile in WriteToFile; the only Save call in pkg/gengo comes after the package loop of Execute).",
+  "Trusted: Lean kernel; the filesystem as a map with atomic individual effects, process death as truncation of the effect trace between two effects (a death inside format.Node after O_TRUNC can leave a half-written generated file — not gengo.sum — and is not modelled); go/parser as the parseOk oracle; which other files are already written when one of several generators renders unparseable output depends on sync.Map's visiting order (any order allowed); the fault enumeration is exhaustive per base scenario, the base scenarios are a sample.",
+  "Lean 4 proof (trace invariants by induction over packages and generators) + fault enumeration against the real code", "6 C02"),
+ "C04": (True,
+  "Lean theorems stating order independence of the whole run (execute_deterministic: presenting the local packages in any order and, inside every package, the name→type table in any order yields the same effects with the same payloads, the same sum bytes and the same result; handler_perm / merge3_perm: dispatch is independent of the iteration order of the three tag maps; sortBy_perm; importBlock_perm; sumData_perm; tables_exact for the repaired loader: the table itself does not depend on Defs order; content_stable / converges from the C08 history model for the fixed point), tied to the code by running every scenario three times in separate processes with permuted entrypoints and three consecutive runs each, all generated files, gengo.sum and the call order compared byte for byte, and with the model.",
+  "Trusted: Lean kernel; Go's runtime explores only some map orders — the theorems cover all orders, the sample some (keys are inserted in descending order so that a dropped sort shows in every run); generators are deterministic functions of their inputs (a generator whose reaction depends on the iteration order of the tag map it is handed is itself non-deterministic); gofumpt/go/format determinism is exercised, not proved.",
+  "Lean 4 proof (permutation invariance through sorted emission points) + repeated-process byte comparison", "6 C04"),
+ "C05": (True,
+  "Lean theorems over the pipeline model (pkg_independent: in a run without error the effects inside a processed package's directory are exactly pkgExecute p, an expression in which the rest of the universe does not occur — every (package, generator) pair starts from the prototype's fresh state, a fresh tracker and an empty buffer; alone_or_together; goPkgs_decomp), tied to the code by stateful recording generators (call counter and helper-once flag rendered into the output, reflect.New and custom New flavours) run on every scenario once as given and once per package alone, generated files compared byte for byte, and the rendered text compared with the model's fresh-state prediction.",
+  "Trusted: Lean kernel; the theorem is easy because the model mirrors New-per-package — the assurance that the code does so comes from the correspondence (a hoisted New or a shared tracker shows as a byte difference and a model disagreement); scenarios are a sample.",
+  "Lean 4 proof (decomposition of the run into per-package traces) + alone/together byte comparison on the real code", "6 C05"),
+ "C06": (True,
+  "Lean theorems over the tag and pipeline models (enabled_spec + enabled_perm: the early-return loop of IsGeneratorEnabled is the order-free rule of the statement, incl. names that are prefixes of one another; merge_precedence: declaration over package over global per key; dispatch_exact: the call log of (package, generator) is the sorted enabled defined types, each once, aliases to the alias hook only; defer_order: the file text is the fragments of the calls in call order followed by every registered callback exactly once in registration order; tables_only_pkg for the repaired loader: the table holds package-scope objects only), tied to the code by real NewContext/Execute on generated modules (defined scalar/struct/generic/interface types, aliases, function-local types and type parameters sharing names with package-level types, tags at three levels incl. repeated keys) with recording generators; call log in order, rendered text, files and sum compared with the model and judged by a Go re-statement of the statement.",
+  "Trusted: Lean kernel; go/types decides what is a defined type, an alias, a local declaration (input of the model); callbacks registered from inside a deferred callback are outside the claim (observation O2); ErrIgnore from GenerateAliasType does not set the keep flag (O3, reported, not claimed); scenarios are a sample.",
+  "Lean 4 proof (fold with early return = order-free rule; dispatch by induction over the sorted table) + correspondence on real Execute", "6 C06"),
+ "C07": (True,
+  "Lean theorems over the effect-trace model (pkgExecute_own / unselected_untouched: every effect of a package run — failing runs included — is on a <base>.* name inside that package's directory; lookalike_safe: a name with prefix base but not base+'.' is never a removal candidate; exists_iff_rendered / writes_spec: after a package run without error exactly one write per gathered non-empty text and one removal per stale <base>.* Go file no gathered entry names, ErrIgnore with nothing rendered keeps the file; goPkgs_fail_own; the sum effect only under All), tied to the code by hashing the whole module tree before and after real runs on generated modules with user files, look-alikes, stale and own old outputs, All on/off and every mix of render / nothing / ErrSkip / ErrIgnore, compared with the model's world and judged by the statement itself on the two snapshots.",
+  "Trusted: Lean kernel; the loader's file list (which files of a directory are parsed Go files of the package) is an input of the model; the file-name format and the sum file name are regenerated from the source; scenarios are a sample.",
+  "Lean 4 proof (trace invariants) + full-tree snapshot comparison on real Execute", "6 C07"),
+ "C08": (True,
+  "Lean theorems over models of the sum file, the skip decision and run histories (roundtrip: reading back what Save wrote gives the same lookup for every key, for key-distinct maps with clean keys and values, sorted one line per entry; skip_sound: in the repaired decision skip ⇒ ¬Force ∧ sum loaded ∧ entry exists ∧ equals the current hash; regen_on_*; execute_sum_last + goPkgs_decomp: after a successful All run the file is the sorted load-time hashes; skip_means_unchanged, content_stable, converges over the history model: the third run on unchanged inputs regenerates nothing and changes nothing), tied to the code by single-run scenarios with every previous-sum variant (none, corrupt, per package correct/stale/missing, unhashable directory) compared with the model, direct Save/Load round trips compared with the model, and random histories of edits, deletions, sum removal/corruption, failing, forced and subset runs on one persistent real module judged against the harness's own content ids of the directories.",
+  "Trusted: Lean kernel; dirhash.Hash1 as an injective function of directory contents (SHA-256 collision freedom); the recorded sum is the hash before the run's own files are written (two runs are needed to converge; deleting a freshly generated file after the very first run returns the directory to the recorded state — observation O6, not claimed); histories are a sample.",
+  "Lean 4 proof (refinement of the cache to 'contents at load time of the last successful All run') + correspondence + history oracle on real modules", "6 C08"),
  "C09": (True,
   "Lean theorems over a model of the template scanner, the Sprintf scanner, Comment/GoDirective and the snippet tree (scan_eq_subst: the repaired template scanner IS substitution into the tokens of the format — maximal names, one apostrophe consumed, argument text never tokenized; sprintf_spec likewise for %v/%T/%%; renderS_tmpl / renderS_sprintf / seq_spec lift both to snippet trees of any depth; lines_roundtrip / comment_lines for Comment), tied to the code by a differential run of the compiled model against snippet.T/Sprintf/Snippets/Comment/GoDirective rendered through a real SnippetWriter (random trees, exhaustive short formats) and judged by an independent Go re-statement of the property.",
   "Trusted: Lean kernel; text/scanner.Next modelled as 'next rune, invalid bytes become U+FFFD' (its leading-BOM skip is known finding F7, outside the theorems' domain); renderings of raw Go values under %v/%T are leaves supplied by the real dumper (C10/C11); the correspondence is a sample.",
